@@ -1,1 +1,266 @@
-(* placeholder: proofs are being written *)
+(* Proofs for C16: the element-specification parser is total, sound, inverts Display, and the
+   string-keyed reads of both representations return the count of the entry the text denotes. *)
+From Coq Require Import List ZArith NArith Bool Arith String Lia.
+From CE Require Import Str TableTypes TableModel Comp ESpec CompSpec CompArith CompSim.
+Import ListNotations.
+Local Open Scope nat_scope.
+
+(* ------------------------------------------------------------------------------------------ *)
+(* totality *)
+Lemma parse_total : forall (tbl : list (string * elem)) s, espec_parse tbl s <> EPanic.
+Proof.
+  intros tbl s. unfold espec_parse.
+  destruct (split_lb s) as [[sym rest]|].
+  - destruct (strip_rb rest) as [ds|]; [|discriminate].
+    destruct (negb (forallb is_digit ds)); [discriminate|].
+    destruct (parse_u16 ds) as [n|]; [|discriminate].
+    destruct (has_elem tbl sym); [|discriminate].
+    destruct (has_iso tbl sym n); discriminate.
+  - destruct (has_elem tbl s); discriminate.
+Qed.
+
+(* ------------------------------------------------------------------------------------------ *)
+(* soundness *)
+Lemma split_lb_some : forall s a b, split_lb s = Some (a, b) -> s = (a ++ [LB] ++ b)%list.
+Proof.
+  induction s as [|c t IH]; intros a b H.
+  - discriminate H.
+  - cbn [split_lb] in H. destruct (c =? LB)%N eqn:E.
+    + apply N.eqb_eq in E. inversion H. subst. reflexivity.
+    + destruct (split_lb t) as [[a' b']|]; [|discriminate H]. inversion H. subst.
+      cbn [app]. f_equal. apply (IH a' b). reflexivity.
+Qed.
+
+Lemma strip_rb_some : forall r ds, strip_rb r = Some ds -> r = (ds ++ [RB])%list.
+Proof.
+  intros r ds H. unfold strip_rb in H. destruct (rev r) as [|c q] eqn:E; [discriminate H|].
+  destruct (c =? RB)%N eqn:Ec; [|discriminate H]. apply N.eqb_eq in Ec. inversion H. subst.
+  rewrite <- (rev_involutive r), E. reflexivity.
+Qed.
+
+Lemma parse_sound : forall (tbl : list (string * elem)) s k, espec_parse tbl s = EOk k ->
+  has_elem tbl (fst k) = true /\
+  ((s = fst k /\ snd k = 0%N /\ split_lb s = None) \/
+   (exists ds, s = (fst k ++ [LB] ++ ds ++ [RB])%list /\ ds <> [] /\ forallb is_digit ds = true
+               /\ parse_u16 ds = Some (snd k) /\ has_iso tbl (fst k) (snd k) = true)).
+Proof.
+  intros tbl s k H. unfold espec_parse in H.
+  destruct (split_lb s) as [[sym rest]|] eqn:Es.
+  - destruct (strip_rb rest) as [ds|] eqn:Er; [|discriminate H].
+    destruct (forallb is_digit ds) eqn:Ed; cbn [negb] in H; [|discriminate H].
+    destruct (parse_u16 ds) as [n|] eqn:En; [|discriminate H].
+    destruct (has_elem tbl sym) eqn:He; [|discriminate H].
+    destruct (has_iso tbl sym n) eqn:Hi; [|discriminate H].
+    inversion H. subst k. cbn [fst snd]. split; [exact He|]. right. exists ds.
+    split; [|split; [|split; [|split]]].
+    + apply split_lb_some in Es. apply strip_rb_some in Er. subst rest. exact Es.
+    + intros E. subst ds. vm_compute in En. discriminate En.
+    + exact Ed.
+    + exact En.
+    + exact Hi.
+  - destruct (has_elem tbl s) eqn:He; [|discriminate H]. inversion H. subst k. cbn [fst snd].
+    split; [exact He|]. left. split; [reflexivity|]. split; reflexivity.
+Qed.
+
+(* ------------------------------------------------------------------------------------------ *)
+(* decimal text: u16::to_string / i32::to_string followed by str::parse *)
+Lemma digits_val_app : forall a b acc,
+  digits_val (a ++ b) acc = match digits_val a acc with Some v => digits_val b v | None => None end.
+Proof.
+  induction a as [|c a IH]; intros b acc; cbn [app digits_val]; [reflexivity|].
+  destruct (is_digit c); [apply IH | reflexivity].
+Qed.
+
+Lemma digit_char : forall d : N, (d < 10)%N -> is_digit (48 + d)%N = true.
+Proof.
+  intros d H. unfold is_digit. apply andb_true_iff. split; apply N.leb_le; lia.
+Qed.
+
+Lemma dof_spec : forall fuel n acc, (n < 2 ^ N.of_nat fuel)%N ->
+  exists ds, digits_of_fuel fuel n acc = (ds ++ acc)%list /\ forallb is_digit ds = true
+             /\ digits_val ds 0 = Some n /\ (fuel <> 0 -> ds <> []).
+Proof.
+  induction fuel as [|f IH]; intros n acc H.
+  - exists []. assert (E : n = 0%N) by (cbn in H; lia). subst n.
+    split; [reflexivity|]. split; [reflexivity|]. split; [reflexivity|]. intros C. exfalso. apply C. reflexivity.
+  - cbn [digits_of_fuel].
+    pose proof (N.div_mod n 10 ltac:(lia)) as Hdm.
+    pose proof (N.mod_lt n 10 ltac:(lia)) as Hml.
+    pose proof (digit_char (n mod 10) Hml) as Hd.
+    destruct (n <? 10)%N eqn:E.
+    + apply N.ltb_lt in E. exists [(48 + n mod 10)%N].
+      split; [reflexivity|]. split; [cbn [forallb]; rewrite Hd; reflexivity|].
+      split; [|intros _; discriminate].
+      cbn [digits_val]. rewrite Hd. f_equal. rewrite (N.mod_small n 10 E). lia.
+    + apply N.ltb_ge in E.
+      assert (Hb : (n / 10 < 2 ^ N.of_nat f)%N).
+      { rewrite Nat2N.inj_succ, N.pow_succ_r' in H. apply N.div_lt_upper_bound; lia. }
+      destruct (IH (n / 10)%N ((48 + n mod 10)%N :: acc) Hb) as [ds [E1 [E2 [E3 _]]]].
+      exists (ds ++ [(48 + n mod 10)%N])%list. rewrite E1, <- app_assoc.
+      split; [reflexivity|]. split; [|split].
+      * rewrite forallb_app, E2. cbn [forallb]. rewrite Hd. reflexivity.
+      * rewrite digits_val_app, E3. cbn [digits_val]. rewrite Hd. f_equal. clear - Hdm Hml. set (q := (n / 10)%N) in *. set (m := (n mod 10)%N) in *. clearbody q m. lia.
+      * intros _ C. apply app_eq_nil in C. destruct C as [_ C]. discriminate C.
+Qed.
+
+Lemma show_N_spec : forall n,
+  forallb is_digit (show_N n) = true /\ digits_val (show_N n) 0 = Some n /\ show_N n <> [].
+Proof.
+  intros n. unfold show_N.
+  destruct (dof_spec (S (N.to_nat (N.log2 n))) n []) as [ds [E1 [E2 [E3 E4]]]].
+  - rewrite Nat2N.inj_succ, N2Nat.id. destruct n as [|p]; [reflexivity|].
+    apply N.log2_spec. lia.
+  - rewrite E1, app_nil_r. split; [exact E2|]. split; [exact E3|]. apply E4. discriminate.
+Qed.
+
+Lemma parse_uint_show : forall bound n, (n <= bound)%N -> parse_uint bound (show_N n) = Some n.
+Proof.
+  intros bound n H. destruct (show_N_spec n) as [_ [E2 E3]]. unfold parse_uint.
+  destruct (show_N n) as [|c r] eqn:E; [exfalso; apply E3; reflexivity|].
+  rewrite E2. apply N.leb_le in H. rewrite H. reflexivity.
+Qed.
+
+(* ------------------------------------------------------------------------------------------ *)
+(* Display then parse *)
+Lemma split_lb_app : forall a b, forallb plain_char a = true -> split_lb (a ++ [LB] ++ b) = Some (a, b).
+Proof.
+  induction a as [|c a IH]; intros b H.
+  - reflexivity.
+  - cbn [forallb] in H. apply andb_true_iff in H. destruct H as [H1 H2].
+    apply plain_char_inv in H1. destruct H1 as [_ [H1 _]].
+    cbn [app split_lb]. rewrite H1. cbn [app] in IH. rewrite (IH b H2). reflexivity.
+Qed.
+
+Lemma strip_rb_app : forall ds, strip_rb (ds ++ [RB]) = Some ds.
+Proof.
+  intros ds. unfold strip_rb. rewrite rev_app_distr. cbn [rev app].
+  change ((RB =? RB)%N) with true. cbv iota. rewrite rev_involutive. reflexivity.
+Qed.
+
+Lemma roundtrip : forall (tbl : list (string * elem)), table_syms_ok tbl = true -> forall k,
+  has_elem tbl (fst k) = true -> (snd k = 0%N \/ has_iso tbl (fst k) (snd k) = true) -> (snd k < 65536)%N ->
+  espec_parse tbl (show_key k) = EOk k.
+Proof.
+  intros tbl Ht [sym iso] He Hi Hlt. cbn [fst snd] in *. unfold show_key. cbn [fst snd].
+  destruct (iso =? 0)%N eqn:E.
+  - apply N.eqb_eq in E. subst iso. apply espec_parse_plain; assumption.
+  - apply N.eqb_neq in E. destruct Hi as [Hi | Hi]; [contradiction|].
+    pose proof (has_elem_sym_ok tbl sym Ht He) as Hok.
+    apply sym_ok_inv in Hok. destruct Hok as [c [r [_ [_ [Hp _]]]]].
+    destruct (show_N_spec iso) as [D1 _].
+    unfold espec_parse. rewrite (split_lb_app sym _ Hp), strip_rb_app, D1. cbn [negb].
+    unfold parse_u16. rewrite (parse_uint_show 65535 iso) by lia. rewrite He, Hi. reflexivity.
+Qed.
+
+(* ------------------------------------------------------------------------------------------ *)
+(* the quick check *)
+Lemma alphabetic_not_LB : forall u c, is_alphabetic u c = true -> (c =? LB)%N = false.
+Proof.
+  intros u c H. destruct (N.eqb_spec c LB) as [E|E]; [|reflexivity]. subst c. vm_compute in H. discriminate H.
+Qed.
+
+Lemma width_ge1 : forall c, 1 <= width c.
+Proof.
+  intro c. unfold width. destruct (c <? 128)%N; [lia|]. destruct (c <? 2048)%N; [lia|].
+  destruct (c <? 65536)%N; lia.
+Qed.
+
+Lemma len_le_blen : forall s, List.length s <= blen s.
+Proof.
+  induction s as [|c t IH]; [apply Nat.le_refl|]. cbn [List.length blen].
+  pose proof (width_ge1 c). lia.
+Qed.
+
+(* a positive answer is only given to text without an opening bracket *)
+Lemma likeyes_split : forall u s, quick_check u s = LikeYes -> split_lb s = None.
+Proof.
+  intros u s H. destruct s as [|c [|c2 [|c3 r]]].
+  - discriminate H.
+  - assert (Ha : is_alphabetic u c = true).
+    { destruct (is_alphabetic u c) eqn:Ea; [reflexivity|]. exfalso.
+      cbv beta iota zeta delta [quick_check rev app] in H. rewrite Ea in H.
+      destruct (Nat.eqb (blen [c]) 1); [discriminate H|].
+      destruct (Nat.ltb (blen [c]) 3); [rewrite andb_false_r in H; discriminate H|].
+      destruct (Nat.eqb (blen [c]) 4); discriminate H. }
+    cbn [split_lb]. rewrite (alphabetic_not_LB u c Ha). reflexivity.
+  - cbv beta iota zeta delta [quick_check rev app] in H.
+    pose proof (width_ge1 c) as W1. pose proof (width_ge1 c2) as W2.
+    assert (Hn : blen [c; c2] = width c + (width c2 + 0)) by reflexivity.
+    destruct (Nat.eqb_spec (blen [c; c2]) 1) as [E1|E1]; [lia|].
+    destruct (Nat.ltb (blen [c; c2]) 3).
+    + destruct (negb (c2 =? LB)%N && negb (c2 =? RB)%N && is_alphabetic u c) eqn:E; [|discriminate H].
+      apply andb_true_iff in E. destruct E as [E Ha]. apply andb_true_iff in E. destruct E as [E2 _].
+      apply negb_true_iff in E2.
+      cbn [split_lb]. rewrite (alphabetic_not_LB u c Ha), E2. reflexivity.
+    + destruct (Nat.eqb (blen [c; c2]) 4); [|discriminate H].
+      destruct (is_alphabetic u c); [|discriminate H]. destruct (c2 =? RB)%N; discriminate H.
+  - exfalso. cbv beta iota zeta delta [quick_check] in H.
+    pose proof (len_le_blen (c :: c2 :: c3 :: r)) as L. cbn [List.length] in L.
+    destruct (Nat.eqb_spec (blen (c :: c2 :: c3 :: r)) 1) as [E1|E1]; [lia|].
+    destruct (Nat.ltb_spec (blen (c :: c2 :: c3 :: r)) 3) as [E2|E2]; [lia|].
+    destruct (Nat.eqb (blen (c :: c2 :: c3 :: r)) 4); [|discriminate H].
+    destruct (is_alphabetic u c); [|discriminate H].
+    match type of H with (if ?b then _ else _) = _ => destruct b end; discriminate H.
+Qed.
+
+(* text of four or more bytes that starts with a letter and ends with ']' is always handed to the parser *)
+Lemma quick_check_bracket : forall u c m, is_alphabetic u c = true -> 4 <= blen (c :: m ++ [RB]) ->
+  quick_check u (c :: m ++ [RB]) = LikeMaybe.
+Proof.
+  intros u c m Ha Hn.
+  assert (Er : exists x q, rev (c :: m ++ [RB]) = RB :: x :: q).
+  { cbn [rev]. rewrite rev_app_distr. cbn [rev app].
+    destruct (rev m ++ [c])%list as [|x q] eqn:E.
+    - apply app_eq_nil in E. destruct E as [_ E]. discriminate E.
+    - exists x, q. reflexivity. }
+  destruct Er as [x [q Er]].
+  cbv beta iota zeta delta [quick_check]. rewrite Er, Ha. cbv beta iota.
+  change ((RB =? RB)%N) with true. cbv iota.
+  destruct (Nat.eqb_spec (blen (c :: m ++ [RB])) 1) as [E1|E1]; [lia|].
+  destruct (Nat.ltb_spec (blen (c :: m ++ [RB])) 3) as [E2|E2]; [lia|].
+  destruct (Nat.eqb (blen (c :: m ++ [RB])) 4); reflexivity.
+Qed.
+
+Lemma likeno_fail : forall (tbl : list (string * elem)) u s, table_syms_ok tbl = true ->
+  quick_check u s = LikeNo -> forall k, espec_parse tbl s <> EOk k.
+Proof.
+  intros tbl u s Ht Hq k Hp.
+  destruct (parse_sound tbl s k Hp) as [He [[E1 _] | [ds [E1 [E2 _]]]]].
+  - pose proof (has_elem_sym_ok tbl (fst k) Ht He) as Hok. rewrite <- E1 in Hok.
+    destruct (quick_check_sym u s Hok) as [Q|Q]; rewrite Q in Hq; discriminate Hq.
+  - pose proof (has_elem_sym_ok tbl (fst k) Ht He) as Hok.
+    apply sym_ok_inv in Hok. destruct Hok as [c [r [Ek [Hal [Hp' _]]]]].
+    assert (Ha : is_alphabetic u c = true).
+    { rewrite Ek in Hp'. cbn [forallb] in Hp'. apply andb_true_iff in Hp'. destruct Hp' as [Hc _].
+      apply plain_char_inv in Hc. destruct Hc as [Hc _]. unfold is_alphabetic. rewrite Hc. exact Hal. }
+    assert (Es : s = c :: (r ++ [LB] ++ ds) ++ [RB]).
+    { rewrite E1, Ek. cbn [app]. f_equal. rewrite <- !app_assoc. reflexivity. }
+    assert (Hl : 4 <= blen s).
+    { pose proof (len_le_blen s) as L. rewrite Es in L at 1. cbn [List.length] in L.
+      rewrite !app_length in L. cbn [List.length] in L.
+      destruct ds as [|d0 dr]; [exfalso; apply E2; reflexivity|]. cbn [List.length] in L. lia. }
+    rewrite Es in Hq, Hl. rewrite (quick_check_bracket u c _ Ha Hl) in Hq. discriminate Hq.
+Qed.
+
+(* ------------------------------------------------------------------------------------------ *)
+(* string-keyed reads *)
+Lemma index_str_spec : forall (tbl : list (string * elem)) (uni_alphabetic : char -> bool),
+  table_syms_ok tbl = true -> forall l s,
+  syms_in_table tbl l = true ->
+  v_index_str tbl uni_alphabetic s l = match espec_parse tbl s with EOk k => e_get k l | _ => 0%Z end
+  /\ m_index_str tbl uni_alphabetic s l = match espec_parse tbl s with EOk k => e_get k l | _ => 0%Z end.
+Proof.
+  intros tbl u Ht l s Hl. unfold v_index_str, m_index_str.
+  destruct (quick_check u s) eqn:Q.
+  - (* LikeYes *)
+    pose proof (likeyes_split u s Q) as Hs.
+    unfold espec_parse. rewrite Hs. unfold v_find_str, m_get_str, plain_key.
+    destruct (has_elem tbl s) eqn:He.
+    + split; reflexivity.
+    + split; [|reflexivity]. apply (syms_absent tbl); assumption.
+  - (* LikeNo *)
+    pose proof (likeno_fail tbl u s Ht Q) as Hn.
+    destruct (espec_parse tbl s) as [k|e|]; [exfalso; apply (Hn k); reflexivity | split; reflexivity | split; reflexivity].
+  - (* LikeMaybe *)
+    split; reflexivity.
+Qed.
